@@ -2,10 +2,22 @@
 """Print the prompt for a blind 'seeded change' sub-agent for property Cxx (nothing from /verif except the property text)."""
 import json, sys
 pid = sys.argv[1]; wt = sys.argv[2]
+round2 = len(sys.argv) > 3 and sys.argv[3] == "round2"
 for line in open("/verif/properties.jsonl"):
     d = json.loads(line)
     if d["id"] == pid:
         break
+import glob, os
+EXTRA = ""
+if round2:
+    taken = []
+    for dd in sorted(glob.glob("/verif/seeded/%s-*" % pid)):
+        try:
+            m = json.load(open(os.path.join(dd, "meta.json")))
+            taken.append("   - %s (%s)" % (m.get("title", "?"), ", ".join(m.get("files", []))[:120]))
+        except Exception:
+            pass
+    EXTRA = ("This is a SECOND round: earlier volunteers already produced the changes listed below - do not repeat them or close variants; pick different functions / clauses of the statement. Prefer harder-to-expose changes: two cooperating edits in different functions that each look harmless alone; state that goes stale only after a specific three-step history; a boundary condition (exactly equal values, empty collection, single element, zero, maximum); an interaction of two optional flags; behaviour that differs only for one rooting state, one data type or one file format.\n Already taken:\n" + "\n".join(taken))
 print(f"""You are helping to evaluate a verification framework for the open-source Python library DendroPy (phylogenetics: trees, character matrices, NEXUS/Newick/NeXML readers and writers). Your task is to play the role of a developer who introduces a realistic REGRESSION.
 
 You work ONLY inside your own scratch git worktree of the library at {wt} (source under {wt}/src/dendropy, tests under {wt}/tests). Do not read or write anything under /verif or /repo, and do not look at other directories under /tmp. Python to use: /venv/bin/python (run things with PYTHONPATH={wt}/src so your worktree's code is imported, and check `dendropy.__file__`).
@@ -23,6 +35,7 @@ Produce TWO independent changes (A and B) to the library source, each of which:
  3. needs something SPECIFIC to manifest - a particular multi-step sequence of operations, an unusual but legitimate input (e.g. a particular tree shape, a namespace from which a taxon was removed, equal edge lengths, a label with special characters, an empty sub-collection), a particular flag combination, or two cooperating edits that each look harmless alone - NOT something any ordinary use would expose at once. Think of plausible developer mistakes: an off-by-one, a wrong default, a missed case in a refactoring, a cache that is not invalidated, an optimisation that is only valid for binary trees, a swapped argument.
  4. is small (1-15 changed lines) and looks like a plausible commit.
 A and B must have different root causes in different functions.
+{EXTRA}
 
 For EACH change deliver, in the directory {wt}/seeded_out/A (resp. B):
  - patch.diff : `git diff` of the change against the worktree's HEAD (only that change applied);
